@@ -1,6 +1,7 @@
 import RscelModel.Driver.Wire
 import RscelModel.Model.Conv
 import RscelModel.Model.WF
+import RscelModel.Driver.AstJson
 open Rscel
 
 def handle (line : String) : String :=
@@ -14,6 +15,39 @@ def handle (line : String) : String :=
         match v with
         | .code c => pure (Wire.showOut (execProg (stdBuiltins 0) env c))
         | _ => none) with
+      | some r => r
+      | none => "bad-request"
+    else if cmd == "lex" then
+      match args with
+      | [h] => (match Wire.strOfHex h with | some src => Wire.showLexed (tokenize src) | none => "bad-request")
+      | [] => Wire.showLexed (tokenize [])
+      | _ => "bad-request"
+    else if cmd == "parse" then
+      let src := match args with | [h] => Wire.strOfHex h | [] => some [] | _ => none
+      match src with
+      | some src => Wire.showParse (parseProgram lazySrc src)
+      | none => "bad-request"
+    else if cmd == "parselist" then
+      let src := match args with | [h] => Wire.strOfHex h | [] => some [] | _ => none
+      match src with
+      | some src => Wire.showParse (parseProgram listSrc src)
+      | none => "bad-request"
+    else if cmd == "compile" then
+      let src := match args with | [h] => Wire.strOfHex h | [] => some [] | _ => none
+      match src with
+      | some src =>
+        (match parseProgram lazySrc src with
+         | .error _ => "E"
+         | .ok a => Wire.showVal (.code (compileProgram (stdBuiltins 0) a)))
+      | none => "bad-request"
+    else if cmd == "exec" then
+      -- exec <env> <hexsrc>: compile the source as program and run it in the environment
+      match (do
+        let (env, rest) ← Wire.parseEnv args
+        let src ← match rest with | [h] => Wire.strOfHex h | [] => some [] | _ => none
+        match parseProgram lazySrc src with
+        | .error _ => pure "e:syntax L:0"
+        | .ok a => pure (Wire.showOut (execProg (stdBuiltins 0) env (compileProgram (stdBuiltins 0) a)))) with
       | some r => r
       | none => "bad-request"
     else if cmd == "wf" then
